@@ -70,38 +70,43 @@ def toFieldNode (pos : Pos) (alias : Option String) (name wkey : String) (argErr
 
 def responseKeyOf (alias : Option String) (name : String) : String := alias.getD name
 
+/-- One iteration of "for each selection in selectionSet"; `recur` is the recursive CollectFields. -/
+def collectSelection (S : Schema) (D : Document) (o : ObjT)
+    (recur : List Selection → List String → Option (GroupedFieldSet × List String))
+    (acc : GroupedFieldSet × List String) (sel : Selection) : Option (GroupedFieldSet × List String) :=
+  let (grouped, visited) := acc
+  if excluded sel.dirs then some (grouped, visited) else
+  match sel with
+  | .field pos alias name wkey argErr _ sub =>
+    some (addToGroup grouped (responseKeyOf alias name) [toFieldNode pos alias name wkey argErr sub], visited)
+  | .spread _ name _ =>
+    if name ∈ visited then some (grouped, visited) else
+    let visited := name :: visited
+    match fragmentNamed D name with
+    | none => some (grouped, visited)
+    | some fr =>
+      if doesFragmentTypeApply S o fr.tc then
+        match recur fr.sels visited with
+        | none => none
+        | some (fg, visited) => some (mergeGroups grouped fg, visited)
+      else some (grouped, visited)
+  | .inline _ tc _ sub =>
+    let applies := match tc with
+      | none => true
+      | some tc => doesFragmentTypeApply S o tc
+    if applies then
+      match recur sub visited with
+      | none => none
+      | some (fg, visited) => some (mergeGroups grouped fg, visited)
+    else some (grouped, visited)
+
 /-- CollectFields(objectType, selectionSet, variableValues, visitedFragments); the visited set is
     updated in place by the text, so it is returned. `none`: fuel exhausted. -/
 def collectFields (S : Schema) (D : Document) (o : ObjT) :
     Nat → List Selection → List String → Option (GroupedFieldSet × List String)
   | 0, _, _ => none
   | fuel + 1, sels, visited =>
-    sels.foldlM (init := (([] : GroupedFieldSet), visited)) fun (acc : GroupedFieldSet × List String) sel =>
-      let (grouped, visited) := acc
-      if excluded sel.dirs then some (grouped, visited) else
-      match sel with
-      | .field pos alias name wkey argErr _ sub =>
-        some (addToGroup grouped (responseKeyOf alias name) [toFieldNode pos alias name wkey argErr sub], visited)
-      | .spread _ name _ =>
-        if name ∈ visited then some (grouped, visited) else
-        let visited := name :: visited
-        match fragmentNamed D name with
-        | none => some (grouped, visited)
-        | some fr =>
-          if doesFragmentTypeApply S o fr.tc then
-            match collectFields S D o fuel fr.sels visited with
-            | none => none
-            | some (fg, visited) => some (mergeGroups grouped fg, visited)
-          else some (grouped, visited)
-      | .inline _ tc _ sub =>
-        let applies := match tc with
-          | none => true
-          | some tc => doesFragmentTypeApply S o tc
-        if applies then
-          match collectFields S D o fuel sub visited with
-          | none => none
-          | some (fg, visited) => some (mergeGroups grouped fg, visited)
-        else some (grouped, visited)
+    sels.foldlM (collectSelection S D o (collectFields S D o fuel)) (([] : GroupedFieldSet), visited)
 
 /-! ## Result coercion (§3.5 scalars, §3.9 enums)
 
@@ -210,6 +215,35 @@ def possibleTypes (S : Schema) (n : String) : List String :=
     (S.types.filter fun p => match p.2 with | .object _ is => n ∈ is | _ => false).map (·.1)
   | _ => []
 
+/-- One entry of ExecuteSelectionSet's loop: ExecuteField (CoerceArgumentValues, ResolveFieldValue,
+    CompleteValue) with §6.4.4 error handling at the field's position. Outer `none`: stuck; inner
+    `none`: the field is not defined on the object type (skipped). `complete` is CompleteValue. -/
+def executeEntry (o : ObjT) (objVal : RVal) (path : Path)
+    (complete : TypeRef → List FieldNode → FieldNode → RVal → Path → Option SOut)
+    (p : String × List FieldNode) : Option (Option (String × SOut)) :=
+  let responseKey := p.1
+  let fields := p.2
+  match fields with
+  | [] => none
+  | f0 :: _ =>
+    let here : Path := path ++ [PathSeg.key responseKey]
+    if f0.name = "__typename" then some (some (responseKey, completed (.str o.name))) else
+    match o.fields.find? (fun (fd : FieldDef) => fd.name = f0.name) with
+    | none => some none
+    | some fd =>
+      let r : Option SOut :=
+        match f0.argErr with
+        | some ae => some (fieldError { msg := .argCoercion ae.msg, path := here, locs := ae.locs })
+        | none =>
+          match resolve objVal f0.wkey with
+          | .err m => some (fieldError { msg := .resolver m, path := here, locs := fields.map FieldNode.pos })
+          | .val v => complete fd.type fields f0 v here
+      r.map fun r => some (responseKey, atPosition fd.type r)
+
+/-- One list item: CompleteValue at the item type, with error handling at the item's position. -/
+def completeItem (inner : TypeRef) (path : Path) (complete : RVal → Path → Option SOut) (p : RVal × Nat) : Option SOut :=
+  (complete p.1 (path ++ [PathSeg.idx p.2])).map (atPosition inner)
+
 mutual
 
 /-- ExecuteSelectionSet(selectionSet, objectType, objectValue, variableValues). -/
@@ -220,27 +254,7 @@ def executeSelectionSet (S : Schema) (D : Document) :
     match collectFields S D o fuel sels [] with
     | none => none
     | some (grouped, _) =>
-      let rs := grouped.mapM fun (p : String × List FieldNode) =>
-        let responseKey := p.1
-        let fields := p.2
-        match fields with
-        | [] => none
-        | f0 :: _ =>
-          let here : Path := path ++ [PathSeg.key responseKey]
-          if f0.name = "__typename" then some (some (responseKey, completed (.str o.name))) else
-          match o.fields.find? (fun (fd : FieldDef) => fd.name = f0.name) with
-          | none => some none
-          | some fd =>
-            -- ExecuteField: CoerceArgumentValues, ResolveFieldValue, CompleteValue
-            let r : Option SOut :=
-              match f0.argErr with
-              | some ae => some (fieldError { msg := .argCoercion ae.msg, path := here, locs := ae.locs })
-              | none =>
-                match resolve objVal f0.wkey with
-                | .err m => some (fieldError { msg := .resolver m, path := here, locs := fields.map FieldNode.pos })
-                | .val v => completeValue S D fuel fd.type fields f0 v here
-            r.map fun r => some (responseKey, atPosition fd.type r)
-      rs.map combineFields
+      (grouped.mapM (executeEntry o objVal path (completeValue S D fuel))).map combineFields
 
 /-- CompleteValue(fieldType, fields, result, variableValues). -/
 def completeValue (S : Schema) (D : Document) :
@@ -261,9 +275,7 @@ def completeValue (S : Schema) (D : Document) :
       if isNullish v then some (completed .null) else
       match v with
       | .list items =>
-        let rs := (items.zipIdx).mapM fun (p : RVal × Nat) =>
-          (completeValue S D fuel inner fields f0 p.1 (path ++ [PathSeg.idx p.2])).map (atPosition inner)
-        rs.map combineItems
+        ((items.zipIdx).mapM (completeItem inner path (completeValue S D fuel inner fields f0))).map combineItems
       | _ => some (fieldError { msg := .notList, path := path, locs := [f0.pos] })
     | .named n =>
       if isNullish v then some (completed .null) else
